@@ -71,6 +71,7 @@ def run(ctx) -> None:
     r2_reference_analysis(ctx)
     r3_exclusions_uniqueness(ctx)
     r4_validator_state(ctx)
+    r5_runs_and_words(ctx)
 
 
 def r1_read_only(ctx) -> None:
@@ -354,3 +355,51 @@ def r4_validator_state(ctx) -> None:
                         else:
                             r.violation("C19.R4", f.qual, short(prog.enclosing_stmt(nd), 100), f"the validator object keeps self.{b.attr} across validate() calls: what it reports for a rule can depend on the rules validated before (e.g. a memoised issue list still naming the first rule that had the value)", loc)
     r.floor("C19.R4", 10)
+
+
+def r5_runs_and_words(ctx) -> None:
+    import re as _re
+    r, prog = ctx.r, ctx.prog
+    r.rule("C19.R5", "a validator object can be used for several runs and reads conditions as tokens: finalize() of every uniqueness validator re-initialises each table it reports from; checks for the selector word 'them' match it as a whole token after 'of', not as a substring of a detection name or pattern")
+    for cq, tables in (("sigma.validators.core.metadata.IdentifierUniquenessValidator", ["ids"]), ("sigma.validators.core.metadata.DuplicateTitleValidator", ["titles"]),
+                       ("sigma.validators.core.metadata.DuplicateFilenameValidator", ["filenames_to_rules", "filenames_to_paths"])):
+        f = prog.func(cq + ".finalize")
+        for t in tables:
+            resets = [n for n in walk_no_nested(f.node) if isinstance(n, ast.Assign) and unparse(n.targets[0]) == f"self.{t}" and isinstance(n.value, ast.Call) and call_name(n.value) in ("defaultdict", "dict", "list", "set")]
+            rets = [x for x in walk_no_nested(f.node) if isinstance(x, ast.Return)]
+            loc = f.loc
+            if resets and rets and all(x.lineno > resets[0].lineno for x in rets):
+                r.ok("C19.R5", f.qual, f"self.{t} re-initialised before finalize() returns", loc)
+            else:
+                r.violation("C19.R5", f.qual, f"self.{t} never reset", "the table keeps the rules of the finished run: validating again with the same validator object reports every rule as colliding with itself (and with rules of earlier collections)", loc)
+    # selector word tests in the condition validators
+    m = prog.module("sigma.validators.core.condition")
+    probes_no = ["selection_themida", "all of themida_*", "1 of themes*", "not all of them-x"]
+    probes_yes = ["all of them", "1 of them", "sel and all  of them", "(all of them)"]
+    n_pat = 0
+    for cq, ci in sorted(prog.classes.items()):
+        if ci.module is not m:
+            continue
+        for name, sts in ci.assigns.items():
+            st = sts[-1]
+            v = getattr(st, "value", None)
+            if isinstance(v, ast.Call) and call_name(v) == "re.compile" and v.args and isinstance(v.args[0], ast.Constant) and "them" in str(v.args[0].value):
+                n_pat += 1
+                pat = v.args[0].value
+                loc = f"{m.relpath}:{st.lineno}"
+                hits_no = [p for p in probes_no if _re.search(pat, p)]
+                need = [p for p in probes_yes if ("all" in pat and not p.split(" of")[0].strip("( ").endswith("all") and "all" not in p) is False]
+                miss_yes = [p for p in probes_yes if ("all" not in pat or "all" in p) and not _re.search(pat, p)]
+                if hits_no:
+                    r.violation("C19.R5", cq, f"{name} = re.compile({pat!r})", f"the pattern also matches {hits_no}: 'them' inside a detection name or pattern is taken for the selector word, so a rule without any 'of them' selector is reported", loc)
+                elif miss_yes:
+                    r.violation("C19.R5", cq, f"{name} = re.compile({pat!r})", f"the pattern misses {miss_yes}", loc)
+                else:
+                    r.ok("C19.R5", cq, f"{name}: matches the selector word as a token ({len(probes_no)} near-miss names rejected)", loc)
+        for fn in ci.methods.values():
+            for n in walk_no_nested(fn.node):
+                if isinstance(n, ast.Compare) and any(isinstance(o, ast.In) for o in n.ops) and isinstance(n.left, ast.Constant) and isinstance(n.left.value, str) and n.left.value in ("them", "all of them", "of them"):
+                    r.violation("C19.R5", fn.qual, unparse(n), "substring test on the condition text: a detection called selection_themida contains 'them'", f"{m.relpath}:{n.lineno}")
+    if n_pat < 2:
+        raise AnalysisError(f"only {n_pat} 'them' patterns found in the condition validators (2 confirmed)")
+    r.floor("C19.R5", 6)
